@@ -353,7 +353,7 @@ def run(ctx: Ctx) -> None:
     ex = 20 if ctx.quick else 400
     jobs = [(ctx.seed * 100 + k, ex, "plain" if k % 4 else "direct", known) for k in range(n)]
     merge_parts(ctx, pmap(shard, jobs))
-    per = 36 if ctx.quick else 1500
+    per = 36 if ctx.quick else 600
     if ctx.quick and any(p.violations for p in ctx.parts.values()):
         ctx.assumptions.append("retry-schedule search skipped in this run: the programs part already reported a violation")
         return
